@@ -176,47 +176,52 @@ def operator_grid(res):
                 if any(nm not in avail or nm not in LIT for nm in names):
                     counts[f"{d}:skipped (no such column type)"] += 1
                     continue
-                used = collections.Counter()
-                args = []
-                for ty, nm in zip(tys, names):
-                    if T.is_const(ty):
-                        args.append(LIT[nm])
-                    else:
-                        args.append(tbl[f"{nm.lower()}{used[nm] % 3}"])
-                        used[nm] += 1
-                stage = "verb"
-                try:
-                    with warnings.catch_warnings():
-                        warnings.simplefilter("ignore")
-                        kw = {"arrange": [tbl.int640]} if op.ftype == Ftype.WINDOW else {}
-                        if args and not any(isinstance(a, pdt.ColExpr) for a in args):
-                            args[0] = pdt.lit(args[0])
-                        e = ColFn(op, *args, **kw)
-                        if opvar in markers:
-                            q = tbl >> X.arrange(e)
-                        elif op.ftype == Ftype.AGGREGATE:
-                            q = tbl >> X.summarize(z=e)
-                        else:
-                            q = tbl >> X.mutate(z=e)
-                        stage = "build_query"
-                        txt = q >> X.build_query()
-                    why = check_text(txt)
-                    o = "text" if why is None else "malformed"
-                except Exception as ex:  # noqa: BLE001
-                    o, why = type(ex).__name__, str(ex)[:200]
-                counts[f"{d}:{o}"] += 1
-                ok = o == "text" or o in REFUSALS or (stage == "verb" and o in REJECTIONS)
-                if not ok:
-                    bad += 1
-                    if bad <= 3:
-                        res.violations.append({
-                            "what": f"{d}: `{opvar}` with argument types {[dtype_to_json(t) for t in tys]} in an accepted "
-                                    f"pipeline: build_query {o} ({why})",
-                            "found_input": True,
-                            "payload": {"dialect": d, "operator": opvar, "argument_types": [dtype_to_json(t) for t in tys],
-                                        "stage": stage, "outcome": o, "detail": why,
-                                        "replay": "harness/props/c19.py operator_grid: table `wide` (three columns per type), "
-                                                  "mutate / summarize / arrange of ColFn(op, columns..., const parameters as literals)"}})
+                for nested in (False, True):
+                    used = collections.Counter()
+                    args = []
+                    for ty, nm in zip(tys, names):
+                      if T.is_const(ty):
+                          args.append(LIT[nm])
+                      else:
+                          c = tbl[f"{nm.lower()}{used[nm] % 3}"]
+                          if nested:      # an operand that is itself compiled to an (often untyped) SQL function
+                              c2 = tbl[f"{nm.lower()}{(used[nm] + 1) % 3}"]
+                              c = (c | c2) if nm == "Bool" else pdt.max(c, c2) if nm not in ("Duration", "Time") else c
+                          args.append(c)
+                          used[nm] += 1
+                    stage = "verb"
+                    try:
+                        with warnings.catch_warnings():
+                            warnings.simplefilter("ignore")
+                            kw = {"arrange": [tbl.int640]} if op.ftype == Ftype.WINDOW else {}
+                            if args and not any(isinstance(a, pdt.ColExpr) for a in args):
+                                args[0] = pdt.lit(args[0])
+                            e = ColFn(op, *args, **kw)
+                            if opvar in markers:
+                                q = tbl >> X.arrange(e)
+                            elif op.ftype == Ftype.AGGREGATE:
+                                q = tbl >> X.summarize(z=e)
+                            else:
+                                q = tbl >> X.mutate(z=e)
+                            stage = "build_query"
+                            txt = q >> X.build_query()
+                        why = check_text(txt)
+                        o = "text" if why is None else "malformed"
+                    except Exception as ex:  # noqa: BLE001
+                        o, why = type(ex).__name__, str(ex)[:200]
+                    counts[f"{d}:{o}"] += 1
+                    ok = o == "text" or o in REFUSALS or (stage == "verb" and o in REJECTIONS)
+                    if not ok:
+                        bad += 1
+                        if bad <= 3:
+                            res.violations.append({
+                                "what": f"{d}: `{opvar}`{' over nested operands' if nested else ''} with argument types {[dtype_to_json(t) for t in tys]} in an accepted "
+                                        f"pipeline: build_query {o} ({why})",
+                                "found_input": True,
+                                "payload": {"dialect": d, "operator": opvar, "argument_types": [dtype_to_json(t) for t in tys],
+                                            "stage": stage, "outcome": o, "detail": why,
+                                            "replay": "harness/props/c19.py operator_grid: table `wide` (three columns per type), "
+                                                      "mutate / summarize / arrange of ColFn(op, columns..., const parameters as literals)"}})
     res.coverage["operator_grid"] = dict(counts)
     res.coverage["evaluations"] = res.coverage.get("evaluations", 0) + sum(counts.values())
     res.traces += sum(counts.values())
